@@ -1221,3 +1221,130 @@ func runC09_13(c *core.Ctx) {
 		}
 	}
 }
+
+func init() {
+	register(&core.Rule{ID: "C09.14", Prop: "C09", MinSites: 4,
+		Desc: "a transfer that is counted is carried out: every return of ring.Buffer.Read other than the ones for an empty request or an empty buffer has passed a copy out of rb.buf[rb.r…] and an advance of rb.r; every return of Write other than the one for an empty payload has passed a copy into rb.buf, an advance of rb.w and rb.isEmpty = false; ReadByte/WriteByte likewise read at/advance rb.r resp. store at/advance rb.w and clear isEmpty",
+		Run:  runC09_14})
+	alias("C10", "C10.20", "C09.14", "the elastic buffers store and deliver through ring.Buffer.Read/Write")
+	alias("C01", "C01.18", "C09.14", "leftover input is parked with ring.Buffer.Write and served with Read")
+}
+
+func runC09_14(c *core.Ctx) {
+	a := ringAnchors(c)
+	if a == nil {
+		return
+	}
+	for _, f := range a.funcs {
+		name := nameOf(f.Obj)
+		if name != "Read" && name != "Write" && name != "ReadByte" && name != "WriteByte" {
+			continue
+		}
+		reads := name == "Read" || name == "ReadByte"
+		cursor := a.w
+		if reads {
+			cursor = a.r
+		}
+		const (
+			fMoved = 1 << iota // the bytes were copied
+			fAdvanced
+			fFlag // Write: isEmpty = false
+			fEarly
+		)
+		isBufFrom := func(e ast.Expr, cur *types.Var, anyStart bool) bool {
+			e = ast.Unparen(e)
+			if flow.FieldOf(f.Info, e) == a.buf {
+				return anyStart
+			}
+			switch x := e.(type) {
+			case *ast.SliceExpr:
+				if flow.FieldOf(f.Info, x.X) != a.buf {
+					return false
+				}
+				return anyStart || (x.Low != nil && flow.FieldOf(f.Info, x.Low) == cur)
+			case *ast.IndexExpr:
+				return flow.FieldOf(f.Info, x.X) == a.buf && (anyStart || flow.FieldOf(f.Info, x.Index) == cur)
+			}
+			return false
+		}
+		p := &flow.Problem{Must: true}
+		p.Node = func(b *flow.Block, i int, n ast.Node, in uint64) uint64 {
+			for _, call := range flow.Calls(n) {
+				if id, ok := call.Fun.(*ast.Ident); ok && id.Name == "copy" && len(call.Args) == 2 {
+					if reads && isBufFrom(call.Args[1], a.r, false) {
+						in |= fMoved
+					}
+					if !reads && isBufFrom(call.Args[0], a.w, true) {
+						in |= fMoved
+					}
+				}
+			}
+			switch y := n.(type) {
+			case *ast.AssignStmt:
+				for k, l := range y.Lhs {
+					if flow.FieldOf(f.Info, l) == cursor {
+						in |= fAdvanced
+					}
+					if flow.FieldOf(f.Info, l) == a.isEmpty && len(y.Rhs) == len(y.Lhs) {
+						if cv := flow.ConstOf(f.Info, y.Rhs[k]); cv != nil && !constant.BoolVal(cv) {
+							in |= fFlag
+						}
+					}
+					// b = rb.buf[rb.r] / rb.buf[rb.w] = c
+					if len(y.Rhs) == len(y.Lhs) {
+						if reads && isBufFrom(y.Rhs[k], a.r, false) {
+							in |= fMoved
+						}
+						if !reads && isBufFrom(l, a.w, false) {
+							in |= fMoved
+						}
+					}
+				}
+			case *ast.IncDecStmt:
+				if flow.FieldOf(f.Info, y.X) == cursor {
+					in |= fAdvanced
+				}
+			}
+			return in
+		}
+		lenOfParam := func(e ast.Expr) bool {
+			e = seeThrough(f, e)
+			call, ok := e.(*ast.CallExpr)
+			if !ok || len(call.Args) != 1 {
+				return false
+			}
+			id, ok := call.Fun.(*ast.Ident)
+			return ok && id.Name == "len" && flow.ObjOf(f.Info, call.Args[0]) == types.Object(f.param(0)) && f.param(0) != nil
+		}
+		p.Edge = func(e *flow.Edge, in uint64) uint64 {
+			if e.Cond == nil || e.Tag != nil {
+				return in
+			}
+			if e.Sense && flow.FieldOf(f.Info, e.Cond) == a.isEmpty && reads {
+				in |= fEarly
+			}
+			if x, y, op, ok := flow.Cmp(e.Cond); ok && (lenOfParam(x) || (flow.ObjOf(f.Info, x) != nil && lenOfParam(x))) {
+				if cv := flow.ConstOf(f.Info, y); cv != nil {
+					k, _ := constant.Int64Val(constant.ToInt(cv))
+					t0, ok0 := ival{lo: 0, hi: 0}.cmp(op, k)
+					t1, ok1 := ival{lo: 1, hiInf: true}.cmp(op, k)
+					if ok0 && ok1 && t0 == e.Sense && t1 != e.Sense {
+						in |= fEarly // the edge admits only an empty request
+					}
+				}
+			}
+			return in
+		}
+		sol := f.Graph().Solve(p)
+		want := uint64(fMoved | fAdvanced)
+		if !reads {
+			want |= fFlag
+		}
+		k := 0
+		sol.AtExit(func(b *flow.Block, facts uint64) {
+			k++
+			c.Check(facts&fEarly != 0 || facts&want == want, f.Name, "effects complete before return #"+itoa(k), b.Return.Pos(), "copied, cursor advanced"+map[bool]string{true: "", false: ", isEmpty cleared"}[reads],
+				"ring.Buffer."+name+" can return on a path that did not "+map[bool]string{true: "copy out of rb.buf[rb.r…] and advance rb.r", false: "copy into rb.buf, advance rb.w and clear isEmpty"}[reads]+": the count it reports was not carried out – bytes are delivered twice or never stored")
+		})
+	}
+}
